@@ -1077,6 +1077,23 @@ def group_nearby_members(
     return out
 
 
+def _check_row_aligned_inputs(group_key, values, mask):
+    """
+    The rolling / cumulative kernels index values and mask by the row number of
+    the group key without bounds checks, so their lengths must agree.
+    """
+    n_rows = len(group_key)
+    n_values = sum(len(chunk) for chunk in values)
+    if n_values != n_rows:
+        raise ValueError(
+            f"Length of values ({n_values}) does not match length of group_key ({n_rows})"
+        )
+    if mask is not None and len(mask) != n_rows:
+        raise ValueError(
+            f"Length of mask ({len(mask)}) does not match length of group_key ({n_rows})"
+        )
+
+
 # ===== Rolling Aggregation Methods =====
 
 
@@ -1149,6 +1166,7 @@ def _apply_rolling(
     rolling_1d_func = rolling_1d_funcs[operation]
     values = _val_to_numpy(values, as_list=True)
     values, orig_dtypes = zip(*list(map(_cast_timestamps_to_ints, values)))
+    _check_row_aligned_inputs(group_key, values, mask)
     orig_dtype = orig_dtypes[0]
     values_are_times = orig_dtype.kind in "mM"
 
@@ -1750,6 +1768,7 @@ def _apply_cumulative(
 
     values = _val_to_numpy(values, as_list=True)
     values, orig_dtypes = zip(*list(map(_cast_timestamps_to_ints, values)))
+    _check_row_aligned_inputs(group_key, values, mask)
     orig_dtype = orig_dtypes[0]
 
     target = _build_target_for_groupby(
